@@ -57,7 +57,7 @@ WALL = {"quick": 600, "thorough": 3000}
 
 TARGETS = ("create_db", "backup_db_path", "initialize_lua", "add_empty_sandbox_lua_module", "add_page", "page_exists")
 KEYLINES = {
-    "create_db": [(".exists()", "bk.exists?"), (".unlink(", "db.unlink"), (".rename(", "bk.rename"),
+    "create_db": [(".exists()", "bk.exists?"), (".unlink(", "db.unlink"), (".rename(", "bk.rename"), (".replace(", "bk.rename"),
                   ("sqlite3.connect", "connect"), ("executescript", "schema+wal"), ("init_wikidata_cache(self)", "wikidata")],
     "add_empty_sandbox_lua_module": [("page_exists", "boot.exists?"), ("add_page", "boot.add"), ("commit", "boot.commit")],
 }
@@ -93,9 +93,9 @@ def grid(tier):
 
 
 def shards(tier, seed):
-    nsh = 4
-    per = {"quick": 18, "thorough": 375}[tier]
-    slow = {"quick": 1, "thorough": 6}[tier]
+    nsh = {"quick": 4, "thorough": 6}[tier]
+    per = {"quick": 18, "thorough": 250}[tier]
+    slow = {"quick": 1, "thorough": 4}[tier]
     g = grid(tier)
     rng = random.Random(seed * 7919 + 13)
     rng.shuffle(g)
@@ -668,7 +668,7 @@ def _execute(case, obs, base):
 
     # ---- trace facts
     events.sort()
-    restorers = sorted({w for _, w, l in events if l == "db.unlink"})
+    restorers = sorted({w for _, w, l in events if l in ("db.unlink", "bk.rename")})
     raced = has_bk and len(restorers) >= 2
     crit = []
     rank = {}
@@ -715,7 +715,7 @@ def _execute(case, obs, base):
     info.update({"crit": crit, "restorers": restorers, "raced": raced, "ov_create_db": ov_c, "ov_boot": ov_b,
                  "wall": wall, "pages_done": pages_done, "exc_types": exc_types, "anchors": anch, "boot_added": boot_added,
                  "rows": len(before), "lua_first": bool(lua_first), "workers": len(pl), "site": site,
-                 "n_events": len(events), "race_symptoms": symptoms, "anomaly_classes": sorted({c for c, _ in anomalies})})
+                 "n_events": len(events), "boot_written": len({w for _, w, l in events if l == "boot.add"}), "race_symptoms": symptoms, "anomaly_classes": sorted({c for c, _ in anomalies})})
     return out, info
 
 
@@ -816,6 +816,11 @@ def run_shard(spec):
         obs.maxi("restorers-in-one-run", len(info["restorers"]))
         if info["boot_added"]:
             obs.count("bootstrap-row-added.runs")
+        obs.count("bootstrap-write.workers", info["boot_written"])
+        if case["boot"] and info["boot_written"]:
+            # observation, not a rule: the existence check looks the title up with '_' turned into
+            # blanks, never finds the stored row, and every worker re-writes it (same values)
+            obs.count("bootstrap-rewritten-although-present.runs")
         obs.count("rows-before", info["rows"])
         obs.maxi("case_wall_s", round(info["wall"], 2))
         for t, n in info["exc_types"].items():
